@@ -8,6 +8,8 @@ CONSTANTS
   SrvMayClose = FALSE
   Reactions <- NoReactions
   HandlerReconnect = FALSE
+  SrvMayStall = FALSE
+  ShutdownBoth = TRUE
   Fixed = TRUE
   Emit = TRUE
 INVARIANT AtMostOneInIo
